@@ -255,6 +255,14 @@ pub fn run(only: &[String]) -> Vec<String> {
             if fail_at != usize::MAX && calls.get() > fail_at && !matches!(report.stop_reason, StopReason::Other(_)) {
                 bad = Some(("C15:run.hook-failure-reported", format!("the hook failed at call {} but the run went on and stopped as {:?}", fail_at, report.stop_reason)));
             }
+            // a second call of run() on the stopped runner changes nothing and reports the same
+            if bad.is_none() && !matches!(report.stop_reason, StopReason::Saturated) {
+                let r2 = runner.run(&mk_rules::<()>(&idx));
+                let fp2 = fingerprint(&runner.egraph, &tracked);
+                if std::mem::discriminant(&r2.stop_reason) != std::mem::discriminant(&report.stop_reason) || r2.iterations != report.iterations || r2.egraph_nodes != fp2.nodes || fp2 != fp {
+                    bad = Some(("C15:run.second-call", format!("first call: {:?} after {} iterations, {} nodes; second call on the same runner: {:?} after {} iterations, report says {} nodes, the classes hold {}", report.stop_reason, report.iterations, report.egraph_nodes, r2.stop_reason, r2.iterations, r2.egraph_nodes, fp2.nodes)));
+                }
+            }
             if let Some((c, m)) = bad { if n < 3 { n += 1; fails.push(format!("FAIL Runner::run {} {}: {}", c, desc, m)); } }
         }}}}}}
     }
